@@ -79,8 +79,8 @@ def run(ctx, rep):
             "(deleted writer / lost participant) every other writer's samples for that instance are dropped for ever", s.line)
     # R24e
     ne = 0
-    for sb, ce in fc.ces.items():
-        c = cmp_norm(E.strip_casts(ce.expr))
+    from rules.common import all_comparisons
+    for sb, cline, c in all_comparisons(fc):
         if c and E.mentions_call(c[1], "ownership_strength") and E.mentions_call(c[2], "ownership_strength"):
             ne += 1
             op, x, y = c
@@ -96,7 +96,7 @@ def run(ctx, rep):
             # fall back: accept the incumbent-keeps forms only
             add("R24e", "ties keep the current owner (writer.strength <= owner.strength is dropped)", op in ("Le", "Ge") and good,
                 "comparison is `%s`: with a strict comparison two equally strong writers take the instance from each other on every sample" % op,
-                m.blocks[sb].term.line)
+                cline)
     rep.floor("R24e", ne, 1, "ownership strength comparisons")
     # R24d: not-alive changes release ownership
     rel = [(bb, t) for bb, t in fc.calls("Vec::remove", "Vec::retain", "Vec::swap_remove") if t.args and field_of(fc.arg(t, 0)) == "instance_ownership"]
